@@ -42,6 +42,8 @@ Verdict(r) ==
   \* a public view that disagrees with the tables it is a view of (members, memberships, ids, counts)
   IF r.viewanom # <<>> THEN <<"C06:" \o r.viewanom[1]>> ELSE
   IF r.postanom # <<>> THEN <<"tainted">> ELSE
+  \* an accessor of a view / statistic raised: reported as such (its placeholder value is not compared)
+  IF r.obs.errs # <<>> THEN <<"C06:raised." \o r.obs.errs[1]>> ELSE
   LET S == FromJ(r.post) IN
   IF ~DiIntegrity(S) THEN <<"tainted">>
   ELSE LET cl == Clauses(S, r.obs)
